@@ -168,7 +168,7 @@ func TestCheck(t *testing.T) {
 		lcs[i] = ev.NewLocal()
 	}
 	corpus := gen.Corpus()
-	games := r.N(16000, 160000)
+	games := r.N(16000, 480000)
 	ev.Parallel(games, func(wk, i int) {
 		lc := lcs[wk]
 		rng := r.RNG("c10", i)
@@ -228,7 +228,7 @@ func TestCheck(t *testing.T) {
 	})
 	// transient / suppressed e.p. rights: start one ply before a double push that lands next to an
 	// enemy pawn, force that push, then oscillate so that the position after the push recurs.
-	pushes := r.N(300000, 3000000)
+	pushes := r.N(300000, 9000000)
 	ev.Parallel(pushes/100, func(wk, i int) {
 		lc := lcs[wk]
 		rng := r.RNG("c10-push", i)
